@@ -4,7 +4,8 @@
 (* mechanism of Staging.tla as a state machine over a small universe        *)
 (* (files Names directly below the root, contents Conts), with every call   *)
 (* order, every request, every per-file transfer outcome, external writes / *)
-(* removals / copies at any moment, every limit in Limits, read-only or not.*)
+(* removals / copies at any moment, every entry limit in Limits, every      *)
+(* staging file size limit in MaxFiles (in write units), read-only or not.   *)
 (* Every call evaluates the property operators of Staging.tla on (state     *)
 (* before, arguments, outputs, state after) and stores the name of the      *)
 (* first one that fails in the monitor variable `bad`; the invariant is     *)
@@ -13,7 +14,7 @@
 (***************************************************************************)
 EXTENDS Staging
 
-CONSTANTS Names, Conts, Limits, MaxReq, MaxChg, MaxStore, KindSet, ROs, ExtNames
+CONSTANTS Names, Conts, Limits, MaxReq, MaxChg, MaxStore, KindSet, ROs, ExtNames, MaxFiles
 
 VARIABLES m,      \* call-protocol state (Staging!NewProto)
           root,   \* the disk below the synchronization root
@@ -25,7 +26,7 @@ vars == <<m, root, rcache, store, recv, bad>>
 
 Roots == {D(c) : c \in PartialFns(Names, {F(x, FALSE) : x \in Conts})}
 
-Init == /\ \E ro \in ROs, mx \in Limits : m = NewProto(ro, mx)
+Init == /\ \E ro \in ROs, mx \in Limits, mf \in MaxFiles : m = NewProto(ro, mx, mf)
         /\ root \in Roots /\ rcache = Nil /\ store = {} /\ recv = <<>> /\ bad = ""
 
 \* ---- arguments ----------------------------------------------------------
@@ -50,7 +51,12 @@ JudgeStage(req, err, ret, store1) ==
               <<"C41_OmittedAvailable", err = "" => C41_OmittedAvailable(root, store, req, ret, store1)>>,
               <<"C41_RequestedNeeded", err = "" => C41_RequestedNeeded(m, root, store, req, ret)>>,
               <<"C10_StoreContentAddressed", C10_StoreContentAddressed(store1)>> >>)
-JudgeRecv(store1) == FirstBad(<< <<"C10_StoreContentAddressed", C10_StoreContentAddressed(store1)>> >>)
+JudgeRecv(kinds, store1) ==
+  FirstBad(<< <<"C10_StoreContentAddressed", C10_StoreContentAddressed(store1)>>,
+              <<"C10_FittingTransferStaged",
+                C10_FittingTransferStaged(m.init /\ \A j \in DOMAIN kinds : kinds[j] \notin {"abort", "abort0"}, m.maxfile,
+                   [j \in DOMAIN recv |-> [path |-> recv[j].path, d |-> recv[j].d, kind |-> kinds[j], sz |-> UnitsOf(recv[j].d)]],
+                   store1)>> >>)
 JudgeTrans(chg, err, results, nprob, missing, root1, store1) ==
   FirstBad(<< <<"C41_TransRefusal", C41_TransRefusal(m, chg, err)>>,
               <<"C41_ReadOnlyRefuses", C41_ReadOnlyRefuses(m, err, root, root1, store, store1)>>,
@@ -83,8 +89,8 @@ DoStage(req) ==
 \* Allocate fails, every file is burnt - so the model forgets it there)
 DoRecv(kinds) ==
   /\ recv # <<>>
-  /\ store' = RecvWalk(recv, kinds, store)
-  /\ bad' = JudgeRecv(store')
+  /\ store' = RecvWalk(recv, kinds, store, m.maxfile)
+  /\ bad' = JudgeRecv(kinds, store')
   /\ Cardinality(store') <= MaxStore
   /\ recv' = <<>>
   /\ UNCHANGED <<m, root, rcache>>
